@@ -134,3 +134,46 @@ def enclosing_stmt(node, pm):
     while node is not None and not isinstance(node, ast.stmt):
         node = pm.get(node)
     return node
+
+
+def local_names(fn_node) -> set:
+    """Parameters and locally bound names of a function (not descending into nested scopes)."""
+    out = set()
+    a = fn_node.args
+    for x in a.posonlyargs + a.args + a.kwonlyargs:
+        out.add(x.arg)
+    if a.vararg:
+        out.add(a.vararg.arg)
+    if a.kwarg:
+        out.add(a.kwarg.arg)
+    for n in walk_local(fn_node, include_root=False):
+        if isinstance(n, ast.Name) and isinstance(n.ctx, ast.Store):
+            out.add(n.id)
+    return out - {'self', 'cls'}
+
+
+def norm_text(node, fn_node=None, limit=90) -> str:
+    """Source text of a construct with the enclosing function's local variable names replaced by positional placeholders
+    ($0, $1, ... in order of appearance), so that renaming a local does not change the text.  Used for finding keys."""
+    import copy
+    if fn_node is None:
+        return short(node, limit)
+    locs = local_names(fn_node)
+    # walk up to an enclosing function's locals as well (free variables of nested helpers)
+    mapping = {}
+
+    class R(ast.NodeTransformer):
+        def visit_Name(self, n):
+            if n.id in locs:
+                mapping.setdefault(n.id, f"${len(mapping)}")
+                return ast.copy_location(ast.Name(id=mapping[n.id], ctx=n.ctx), n)
+            return n
+
+        def visit_arg(self, n):
+            return n
+    try:
+        cp = copy.deepcopy(node)
+        cp = R().visit(cp)
+        return short(cp, limit)
+    except Exception:
+        return short(node, limit)
